@@ -247,6 +247,8 @@ func init() {
 		{Name: "merge-drops-absorbed-images", File: piler, Find: "\t\t\tpi.images = append(pi.images, iv.images...)\n", Replace: "\t\t\t_ = iv.images\n", Rule: "pilemerge", Key: "images-carried-over"},
 		{Name: "merge-skips-delete-for-single-match", File: piler, Find: "\tfor _, d := range r {\n\t\tt.Delete(d, false)\n\t}\n", Replace: "\tif len(r) > 1 {\n\t\tfor _, d := range r {\n\t\t\tt.Delete(d, false)\n\t\t}\n\t}\n", Rule: "pilemerge", Key: "matches-deleted"},
 		{Name: "merge-end-not-extended", File: piler, Find: "\t\t\tpi.end = max(iv.end, pi.end)\n", Replace: "", Rule: "pilemerge", Key: "span-is-union"},
+		{Name: "merge-end-only-from-first-match", File: piler, Find: "\t\t\t\tf = false\n\t\t\t}\n\t\t\tpi.end = max(iv.end, pi.end)\n", Replace: "\t\t\t\tpi.end = max(iv.end, pi.end)\n\t\t\t\tf = false\n\t\t\t}\n", Rule: "pilemerge", Key: "end-from-every-match"},
+		{Name: "benign-merge-end-extended-by-comparison", File: piler, Find: "\t\t\tpi.end = max(iv.end, pi.end)\n", Replace: "\t\t\tif iv.end > pi.end {\n\t\t\t\tpi.end = iv.end\n\t\t\t}\n"},
 		{Name: "merge-inserts-into-fresh-tree", File: piler, Find: "\tt.Insert(pi, false)\n", Replace: "\tt = &interval.IntTree{}\n\tp.intervals[pi.location] = t\n\tt.Insert(pi, false)\n", Rule: "pilemerge", Key: "merged-inserted"},
 		{Name: "add-looks-up-one-orientation-twice", File: piler, Find: "\tif _, ok := p.seen[ba]; ok {\n", Replace: "\t_ = ba\n\tif _, ok := p.seen[ab]; ok {\n", Rule: "pileadd", Key: "duplicate-lookup-both-orientations"},
 		{Name: "add-merges-first-feature-before-second-lookup", File: piler, Find: "\tif _, ok := p.seen[ba]; ok {\n\t\treturn duplicatePair\n\t}\n\n\tp.merge(&pileInterval{id: p.nextID(), start: fp.A.Start(), end: fp.A.End(), location: fp.A.Location(), images: []*Feature{fp.A}, overlap: p.overlap})\n", Replace: "\tp.merge(&pileInterval{id: p.nextID(), start: fp.A.Start(), end: fp.A.End(), location: fp.A.Location(), images: []*Feature{fp.A}, overlap: p.overlap})\n\tif _, ok := p.seen[ba]; ok {\n\t\treturn duplicatePair\n\t}\n\n", Rule: "pileadd", Key: "duplicate-verdict-before-merge"},
